@@ -189,13 +189,13 @@ func (sr *subIfRep) replace(seq slip.List) slip.Object {
 		sr.count = len(seq)
 	}
 	if sr.rev {
-		for i := sr.end - 1; sr.start <= i; i-- {
+		for i := sr.end - 1; sr.start <= i && 0 < sr.count; i-- {
 			if sr.maybe(seq, i) {
 				break
 			}
 		}
 	} else {
-		for i := sr.start; i < sr.end; i++ {
+		for i := sr.start; i < sr.end && 0 < sr.count; i++ {
 			if sr.maybe(seq, i) {
 				break
 			}
@@ -209,10 +209,11 @@ func (sr *subIfRep) maybe(seq slip.List, i int) bool {
 	if sr.kc != nil {
 		v = sr.kc.Call(sr.s, slip.List{v}, sr.depth)
 	}
+	// The count limits the elements replaced, not the elements looked at.
 	if sr.pc.Call(sr.s, slip.List{v}, sr.depth) != nil {
 		seq[i] = sr.rep
+		sr.count--
 	}
-	sr.count--
 	return sr.count <= 0
 }
 
@@ -224,13 +225,13 @@ func (sr *subIfRep) replaceBytes(seq []byte) slip.Object {
 		sr.count = len(seq)
 	}
 	if sr.rev {
-		for i := sr.end - 1; sr.start <= i; i-- {
+		for i := sr.end - 1; sr.start <= i && 0 < sr.count; i-- {
 			if sr.maybeByte(seq, i) {
 				break
 			}
 		}
 	} else {
-		for i := sr.start; i < sr.end; i++ {
+		for i := sr.start; i < sr.end && 0 < sr.count; i++ {
 			if sr.maybeByte(seq, i) {
 				break
 			}
@@ -246,7 +247,7 @@ func (sr *subIfRep) maybeByte(seq []byte, i int) bool {
 	}
 	if sr.pc.Call(sr.s, slip.List{v}, sr.depth) != nil {
 		seq[i] = byte(sr.rep.(slip.Octet))
+		sr.count--
 	}
-	sr.count--
 	return sr.count <= 0
 }
